@@ -213,6 +213,19 @@ func Finish(c *Ctx, verifDir string, known *KnownFile, seed int, t0 time.Time, e
 	}
 	distinct := map[string]bool{}
 	n := 0
+	{ // drop exact duplicates (same key and verdict), keep the first
+		seenKV := map[string]bool{}
+		var keep []*Obligation
+		for _, o := range c.Obls {
+			kv := o.Key() + "|" + string(o.Verdict)
+			if seenKV[kv] && o.Verdict != Info {
+				continue
+			}
+			seenKV[kv] = true
+			keep = append(keep, o)
+		}
+		c.Obls = keep
+	}
 	for _, o := range c.Obls {
 		if o.Verdict == Info {
 			info++
